@@ -228,7 +228,7 @@ pub fn run_payloads(payloads: &[Vec<u8>], ignores: &[bool], st: &mut Stats) -> R
                 if lenient {
                     // refused with an ERR reply instead of ending the connection: also fine, as
                     // long as the command was answered by exactly one ERR and nothing shifted
-                    let d = decode_all(&o.sim.out, &conv, &s.last_seq, n_cmds + 1, false).map_err(|e| Violation::new("reply-decode", e))?;
+                    let d = decode_all(delivered(&o), &conv, &s.last_seq, n_cmds + 1, false).map_err(|e| Violation::new("reply-decode", e))?;
                     return match &d.replies[k][..] {
                         [Unit::Err(_)] => Ok(None),
                         other => Err(Violation::new("undecodable-execute-served", format!("an execution that reuses types although none were bound was answered by {} unit(s) that are not a single ERR", other.len()))),
@@ -244,7 +244,7 @@ pub fn run_payloads(payloads: &[Vec<u8>], ignores: &[bool], st: &mut Stats) -> R
             if !o.res.is_ok() {
                 return Err(Violation::new("result-not-ok", format!("run_on returned {} for a history the model accepts", o.res.short())));
             }
-            decode_all(&o.sim.out, &conv, &s.last_seq, n_cmds + 1, false).map_err(|e| Violation::new("reply-decode", e))?;
+            decode_all(delivered(&o), &conv, &s.last_seq, n_cmds + 1, false).map_err(|e| Violation::new("reply-decode", e))?;
             Ok(Some(reg))
         }
     }
